@@ -169,6 +169,8 @@ def _assigned_terms(stmts, norm: Normaliser) -> set[str]:
     for s in stmts:
         for n in ast.walk(s):
             if isinstance(n, (ast.Name, ast.Attribute, ast.Subscript)) and isinstance(getattr(n, "ctx", None), (ast.Store, ast.Del)):
+                if isinstance(n, ast.Name) and hasattr(norm, "single_def") and norm.single_def(n.id) is not None:
+                    continue  # the one definition of a transparent local: facts are stated over what it stands for
                 out.add(norm.term(n))
             if isinstance(n, ast.AugAssign):
                 out.add(norm.term(n.target))
